@@ -3,6 +3,8 @@ import NeoFS.Model.AccessExpect
 import NeoFS.Lemmas.Access
 import NeoFS.Props.C03Defs
 import NeoFS.Lemmas.Threshold
+import NeoFS.Generated.Consts
+import NeoFS.Generated.Footprint
 /-! # C03 — every mutating contract method is inert without its required witnesses
 
 `NeoFS.Generated.Access.methods` is regenerated from the Go sources on every run (one IR program per exported
@@ -139,5 +141,37 @@ example : methods.any (fun m => m.contract == "netmap" && m.method == "addPeer" 
 example : 60 ≤ (methods.filter (fun m => !m.safe && !syntacticallyPure m.prog)).length := by decide +kernel
 -- the F6 shape (`neofs.setConfig` guarded by a data test only) would be rejected by the decision procedure
 example : inertB (maskVal 0) (.seq (.choice .fault .skip) (.seq (.choice .ret .skip) .effect)) = false := by decide
+
+/-! ## Safe methods have an empty footprint (second, independent reading of the sources)
+
+`NeoFS.Generated.Footprint.table` is computed by another extractor than the IR above (`extract footprint`: may-write closure
+over the static call graph, no control flow). A method the manifest declares `safe` (flag taken from `config.yml` by the IR
+extractor) must have NO row of kind put / delete / notify / call there: no storage write, no notification, no call that is
+allowed to write or notify, through any helper, on any path. Read-only calls (`callro`) are allowed. -/
+section Footprint
+
+/-- Every method of the IR table is a method the footprint extractor knows, and every method marked `safe` in the manifest has an
+empty footprint. -/
+theorem safe_methods_have_empty_footprint :
+    methods.all (fun m => (NeoFS.Footprint.methodsOf NeoFS.Generated.Footprint.methods m.contract).contains m.method &&
+      (!m.safe || NeoFS.Footprint.noEffect NeoFS.Generated.Footprint.contracts m.contract m.method)) = true := by decide +kernel
+
+/-- … and conversely: the two extractors see the same exported methods of every contract. -/
+theorem footprint_and_ir_tables_list_the_same_methods :
+    NeoFS.Generated.Footprint.methods.all (fun p =>
+      let names := (methods.filter (fun m => m.contract == p.1)).map (·.method)
+      p.2.all names.contains) = true := by decide +kernel
+
+/-- The footprint table is well grouped: every row carries the label of its group and labels are distinct — so each per-contract
+statement of the other property files (`Props/C01, C04, C06 … C20`, which look at one group) is a statement about ALL rows of
+that contract in the whole table (`NeoFS.Footprint.rows_complete`, `onlyBy_sound`, `writesWithin_sound`). -/
+theorem footprint_table_grouped_by_contract : NeoFS.Footprint.Grouped NeoFS.Generated.Footprint.contracts = true := by
+  decide +kernel
+
+-- non-vacuity: there are safe methods, and non-safe methods do have rows
+example : 40 ≤ (methods.filter (·.safe)).length := by decide +kernel
+example : NeoFS.Footprint.noEffect NeoFS.Generated.Footprint.contracts "balance" "transfer" = false := by decide +kernel
+example : NeoFS.Footprint.noEffect NeoFS.Generated.Footprint.contracts "balance" "balanceOf" = true := by decide +kernel
+end Footprint
 
 end NeoFS.Props.C03
